@@ -414,13 +414,16 @@ def execute(plan):
             focused = dict(plan)
             focused["only"] = pt
             focused["only2"] = pt2
+            full = dict(plan)
+            full.pop("only", None)
+            full.pop("only2", None)
             out["violations"].append({
                 "sig": "C19|%s|%s" % (clause, plan["kind"]),
                 "key": {"clause": clause, "scenario": plan["kind"],
                         "fault": label},
                 "detail": "%s; failure point %r; %s scenario entered by %s"
                           % (detail, pt, plan["kind"], plan["entry"]),
-                "plan": focused})
+                "plan": focused, "plan_full": full})
 
         base, problems, recon = ctx.run(store0, [], "baseline")
         out["evaluations"] += 1
